@@ -1,9 +1,118 @@
 import Olla.Driver.Util
+import Olla.Model.Headers
+import Olla.Spec.C15
 
 namespace Olla.Driver.C15
-open Lean Olla.Driver
+open Lean Olla.Driver Olla.Model.Headers Olla.Gen.Headers
+open Olla.Spec.C15 (noneForwarded othersUnchanged additionsKeepExisting isFiltered firstDropped singleLine)
 
-/-- placeholder until the C15 driver is written -/
-def main : IO Unit := pure ()
+def chars (j : Json) : List Char := (jstr j).toList
+def str (l : List Char) : String := String.ofList l
+
+/-- `[{"k":…, "v":[…]}, …]` -/
+def parseHdr (j : Json) : Hdr := (jarr j).map (fun e => (chars (jget e "k"), (jarr (jget e "v")).map chars))
+
+/-- `[[name, value], …]` (wire order) -/
+def parseLines (j : Json) : List (List Char × List Char) :=
+  (jarr j).map (fun e => (chars ((jarr e).getD 0 Json.null), chars ((jarr e).getD 1 Json.null)))
+
+def hdrJson (h : Hdr) : Json := Json.arr (h.map (fun e => Json.mkObj [("k", toJson (str e.1)), ("v", toJson (e.2.map str))])).toArray
+
+/-- equality of two header maps with pairwise distinct keys, whatever the order -/
+def sameMap (a b : Hdr) : Bool := a.length == b.length && a.all (fun e => b.contains e)
+
+/-- variant `i` of a lower-case name: bit `j` of `i` upper-cases the j-th letter (mirrors the harness) -/
+def variantGo : List Char → Nat → List Char
+  | [], _ => []
+  | c :: cs, i => if lowers.contains c then (if i % 2 == 1 then toUpperAZ c else c) :: variantGo cs (i / 2) else c :: variantGo cs i
+
+def specVerdict (inp out : Hdr) : Bool × String × String :=
+  if !noneForwarded out then
+    let bad := (out.filter (fun e => isFiltered e.1)).map (fun e => str e.1)
+    (false, "filtered-header-forwarded", s!"sensitive / hop-by-hop header(s) sent upstream: {bad}")
+  else if !othersUnchanged inp out then
+    let bad := (inp.filter (fun e => !(othersUnchanged [e] out))).map (fun e => str e.1)
+    (false, "client-header-changed", s!"client header(s) dropped or altered: {bad}")
+  else match firstDropped inp out with
+    | some k =>
+      let multi := (Olla.Spec.C15.valuesOf inp k).length > 1
+      (false, if multi then "forwarded-multiline-values-dropped" else "forwarded-existing-value-dropped",
+        s!"{str k}: existing values {(Olla.Spec.C15.valuesOf inp k).map str} became {(Olla.Spec.C15.valuesOf out k).map str}")
+    | none => (true, "", "")
+
+def branchOf (inp : Hdr) : String :=
+  let f := inp.any (fun e => isFiltered e.1)
+  let m := Olla.Spec.C15.maintained.any (fun k => (Olla.Spec.C15.valuesOf inp k).length > 0)
+  let ml := !singleLine inp
+  let big := inp.length ≥ 20
+  (if f then "drop" else "nodrop") ++ (if ml then "+multiline" else if m then "+existing" else "+fresh") ++ (if big then "+big" else "")
+
+def handle (j : Json) : IO Unit := do
+  let case := jnat (jget j "case")
+  let kind := jstr (jget j "kind")
+  let impl := jget j "impl"
+  match kind with
+  | "name" =>
+    let n := chars (jget j "name")
+    let c := canonicalKey n
+    let h := isHop n
+    let ok := str c == jstr (jget impl "canon") && h == jbool (jget impl "hop")
+    emit case ok true (if n.all isTokenChar then (if h then "name.token.hop" else "name.token") else "name.nontoken") "" ""
+      (Json.mkObj [("canon", toJson (str c)), ("hop", toJson h)])
+  | "clientip" =>
+    let h := parseHdr (jget j "hdrs")
+    let ip := extractClientIP active { host := [], remoteHost := chars (jget j "remote_host"), tls := false } h
+    emit case (str ip == jstr (jget impl "ip")) true
+      (if valuesOf h hXFF != [] then "clientip.xff" else if valuesOf h hXRealIP != [] then "clientip.realip" else "clientip.remote") "" "" (toJson (str ip))
+  | "variants" =>
+    let base := chars (jget j "base")
+    let src := jnat (jget j "from")
+    let cnt := jnat (jget j "count")
+    let fwdImpl := jnatList (jget impl "forwarded")
+    let fwdModel := (List.range cnt).filterMap (fun d =>
+      let n := variantGo base (src + d)
+      if isHop n || isSensitive n then none else some (src + d))
+    -- spec: the base name is a listed one; none of its spellings may come through
+    let listed := isFiltered base
+    let spec := !listed || fwdImpl.isEmpty
+    emit case (fwdImpl == fwdModel) spec "variants" (if spec then "" else "filtered-header-forwarded")
+      (if spec then "" else s!"spellings of {str base} forwarded: {(fwdImpl.take 5).map (fun i => str (variantGo base i))}") (toJson fwdModel)
+  | "copy" =>
+    let inp := parseHdr (jget j "hdrs")
+    let ctx : Ctx := { host := chars (jget j "host"), remoteHost := chars (jget j "remote_host"), tls := jbool (jget j "tls") }
+    let out := parseHdr (jget impl "out")
+    let want := copyHeaders active ctx inp
+    let pan := jstr (jget impl "panic")
+    let (spec, sig, note) := specVerdict inp out
+    emit case (pan == "" && sameMap want out) (spec && pan == "") ("copy." ++ branchOf inp)
+      (if pan != "" then "copyheaders-panic" else sig) (if pan != "" then pan else note) (hdrJson want)
+  | "stack" =>
+    let lines := parseLines (jget j "lines")
+    let inp := groupLines lines
+    let ctx : Ctx := { host := chars (jget j "host"), remoteHost := chars (jget j "remote_host"), tls := false }
+    let seenReqs := jarr (jget impl "seen")
+    let modelS := jstr (jget j "model")
+    match seenReqs with
+    | [one] =>
+      let raw := parseLines (jget one "lines")
+      -- what the transport writes for its own hop is not part of the forwarded header set
+      let own := fun (e : List Char × List Char) =>
+        lowerAscii e.1 == "host".toList || lowerAscii e.1 == "content-length".toList ||
+        (lowerAscii e.1 == "transfer-encoding".toList && e.2 == "chunked".toList)
+      let seen := groupLines (raw.filter (fun e => !own e))
+      let model : Value := if modelS == "?" then (match valuesOf seen hXModel with | [v] => v | _ => []) else modelS.toList
+      let want := engineHeaders active ctx inp model
+      let (spec, sig, note) := specVerdict inp seen
+      let hostOk := (raw.filter (fun e => lowerAscii e.1 == "host".toList)).map (·.2) == [ctx.host]
+      emit case (sameMap want seen && hostOk && jnat (jget impl "elsewhere") == 0) spec
+        s!"stack.{jstr (jget j "engine")}.{jstr (jget j "route")}{if jbool (jget j "failover") then ".failover" else ""}.{branchOf inp}"
+        sig note (hdrJson want)
+    | _ =>
+      emit case false true "stack.no-single-request" ""
+        s!"backend saw {seenReqs.length} requests, status {jstr (jget impl "status")} err {jstr (jget impl "err")}"
+  | "stack-error" => emit case false true "stack.start-failed" "" (jstr (jget impl "err"))
+  | _ => emit case false true "unknown-kind" "" s!"unknown kind {kind}"
+
+def main : IO Unit := do forLines (← IO.getStdin) handle
 
 end Olla.Driver.C15
